@@ -14,9 +14,9 @@ CONSTANTS
   CapPending = TRUE
   MaxHist = 7
   WithdrawOnExpiry = TRUE
-  KeepLaterDeadline = FALSE
+  KeepLaterDeadline = TRUE
   EraseOnLookup = FALSE
-INVARIANTS Reach_FarFutureCapped
+INVARIANTS C03_ArrivalWrites
 VIEW View
 CONSTRAINT Bound
 CHECK_DEADLOCK FALSE
